@@ -216,7 +216,12 @@ static int w_enabled(int opi)
         if (g_mode == MODE_C06 && o->a > 1) return 0;
         if (exotic && (W.ntweak > 0 || (W.keyidx >= 0 && !is_simple_key(W.keyidx)))) return 0;
         if (W.consumed == 0 && W.nctr == 0) return 1;
-        if (W.consumed > 0 && !W.seg2 && !W.nreconf && o->a < 3 && !W.exotic && g_mode == MODE_C05) return 1;
+        {   /* a later set_counter (after data, or straight after a first one): the plain counters, the NULL forms
+             * (which must give the all-zero block whatever the object's counter holds by then) and one short one */
+            int later_ok = o->a < 3 || CTNULL[o->a] || (CTLEN[o->a] == 2 && !CTNULL[o->a]);
+            if (W.consumed > 0 && !W.seg2 && !W.nreconf && later_ok && !W.exotic && g_mode == MODE_C05) return 1;
+            if (W.consumed == 0 && W.nctr == 1 && !W.seg2 && !W.nreconf && later_ok && o->a >= 3 && !W.exotic && W.ntweak == 0 && g_mode == MODE_C05) return 1;
+        }
         return 0; }
     case T_ENC:
         if (g_mode == MODE_C06 && W.phase == PH_CLEANED) return W.postclean < 1 && o->a == 1 && o->b == 0;
